@@ -2,6 +2,7 @@ import J5V.Codec.SpellingProofs
 import J5V.Codec.FaultProofs
 import J5V.Codec.FaultDocProofs
 import J5V.Codec.SpellProofs
+import J5V.Codec.QueryProofs
 import J5V.Generated.CodecFacts
 /-!
 # C03 — decoding is exact or rejected
@@ -268,6 +269,25 @@ theorem C03_scalar_alternates (O : Oracle) (raw : Bytes) :
   · intro s
     exact ⟨by simp, _, rfl, rfl⟩
 
+/-! ## scalar values supplied as URL query parameters -/
+
+/-- **C03_query_scalar**: a scalar (or enum) value supplied as the URL query parameter
+`a.b.c=v` — dotted path of JSON names through object, wrapper-oneof and exposed-oneof containers
+of any proto path — produces the **same outcome** as the document `{"a":{"b":{"c":V}}}`
+(`queryDoc`: `V` is `true` / `false` for a boolean field given as `true` / `false`, the string
+`"v"` otherwise): the same message when accepted, an error exactly when the document is rejected.
+For every environment (no hypothesis on the schema), every oracle, both modes. Together with
+`C03_variations` / `C03_scalar_alternates` (the string form of a number, a date, … is an
+admissible spelling) the parameter produces the same message as the canonical spelling. -/
+theorem C03_query_scalar (c : Cfg) (root : String) (props : List PropDef) (key s : Bytes)
+    (doc : PTree)
+    (hroot : c.env.find root = some (.object props) ∨ c.env.find root = some (.oneof props))
+    (hnt : ascii "!type" ∉ splitDot key) (hdoc : queryDoc c (splitDot key) props s = some doc) :
+    (∃ m, decodeQuery c root [(key, [s])] = .ok m ∧ decRootTree c root doc = .ok m) ∨
+    (∃ e e', decodeQuery c root [(key, [s])] = .err e ∧ decRootTree c root doc = .err e') ∨
+    (∃ w w', decodeQuery c root [(key, [s])] = .panic w ∧ decRootTree c root doc = .panic w') :=
+  query_scalar_doc c root props key s doc hroot hnt hdoc
+
 /-! ## document level: a fault anywhere is rejected -/
 
 /-- **C03_faults**: a document that contains — at the top level or at *any* nesting position
@@ -394,6 +414,13 @@ example : SpellsRoot faultCfg "t.M"
   · exact absurd (by decide) hn
   · exact absurd (by decide) hn
   · exact ⟨fun _ => by decide, fun h => by simp at h⟩
+
+/-- `sub.w.b=7` is the document `{"sub":{"w":{"b":"7"}}}` (hypotheses of `C03_query_scalar`) -/
+example : queryDoc faultCfg (splitDot (ascii "sub.w.b")) mProps (ascii "7") =
+    some (.obj (.cons (ascii "sub") [] (.obj (.cons (ascii "w") [] (.obj (.cons (ascii "b") []
+      (.str (ascii "7") []) (.nil .closed))) (.nil .closed))) (.nil .closed))) := by
+  rfl
+example : ascii "!type" ∉ splitDot (ascii "sub.w.b") := by decide
 
 example : faultEnv.flat = true := by decide
 example : valOk faultEnv toyOracle (.object "t.M")
